@@ -178,6 +178,12 @@ def twin_entries():
 twin_entries()
 
 
+# the unchanged tree through every thorough tier: must be silent (a model fault that only the thorough tier's wider class set
+# reaches - C09.P10 on multi-D grids, DESIGN 9.5 - would otherwise go unnoticed until the thorough command is used)
+for _i in range(1, 18):
+    M.append(dict(id=f'clean-thorough-C{_i:02d}', prop=f'C{_i:02d}', expect=None, identity=True, tier='thorough'))
+
+
 def run_one(m, keep=False):
     try:
         return _run_one(m, keep)
@@ -192,7 +198,9 @@ def _run_one(m, keep=False):
         shutil.copytree(REPO_SRC, dst)
         os.makedirs(os.path.join(tmp, 'docs'), exist_ok=True)
         shutil.copytree('/repo/docs/user_guide', os.path.join(tmp, 'docs', 'user_guide'))
-        if 'patch' in m:
+        if m.get('identity'):
+            pass                                            # the unchanged tree (thorough tiers: they are not run by anything else here)
+        elif 'patch' in m:
             r = subprocess.run(['git', 'apply', m['patch']], cwd=tmp, capture_output=True, text=True)
             if r.returncode:
                 return m, 'SETUP', f"patch does not apply: {r.stderr[:200]}"
@@ -215,7 +223,7 @@ def _run_one(m, keep=False):
             except SyntaxError as e:
                 return m, 'SETUP', f"mutant does not parse: {e}"
         env = dict(os.environ, PV_REPO=tmp, PV_EVIDENCE_DIR=os.path.join(tmp, 'evidence'), PV_JOBS=os.environ.get('PV_SELFTEST_JOBS', '1'))
-        p = subprocess.run([os.path.join(VERIF, 'check'), m['prop'], '--tier', 'quick'], cwd=VERIF, env=env, capture_output=True, text=True, timeout=5400)
+        p = subprocess.run([os.path.join(VERIF, 'check'), m['prop'], '--tier', m.get('tier', 'quick')], cwd=VERIF, env=env, capture_output=True, text=True, timeout=5400)
         out = p.stdout + p.stderr
         vio = [l for l in out.splitlines() if l.startswith('  rule=')]
         if m['expect'] is None:
